@@ -486,6 +486,21 @@ fn prog_body(prog: &Prog, log: &Arc<Mutex<Vec<Event>>>, stale: &Arc<AtomicU64>) 
     }
     parking_lot::verif_rt::set_oracle_mode(true);
     if prog.judge_under_fault {
+        // once a failure of the write path is recorded the background thread must stop producing
+        // files: a flush or compaction that is already past its check may finish one more table
+        // (and a compaction's output), not one per remaining entry of a merge loop
+        let creates = fs.state().table_creates_after_fault;
+        if prog.fault.map(|(c, sfx)| c & crate::vfs::class::WRITE != 0 && sfx == ".manifest").unwrap_or(false) && prog.fault_budget == Some(1) && creates > 2 {
+            log2.lock().unwrap().push(Event {
+                thread: 96,
+                op: TOp::Flush,
+                invoke: u64::MAX - 7,
+                ret: u64::MAX - 6,
+                res: Res::Err(format!("C08 background work after a recorded failure: {} table files were created after the single injected failure of a manifest write (the database is in its error state from then on)", creates)),
+            });
+        }
+    }
+    if prog.judge_under_fault {
         fs.state().fail_by_suffix = None;
         let events = log2.lock().unwrap().clone();
         if let Some(msg) = check_durable_after_reopen(prog, &fs, &events) {
@@ -921,6 +936,8 @@ pub fn judge(prog: &Prog, out: &Outcome, events: &[Event], stale_uses: u64, atom
                 "C11.dead_file_kept"
             } else if m.starts_with("C03 snapshot changed its answer") {
                 "C03.snapshot_not_stable"
+            } else if m.starts_with("C08 background work after a recorded failure") {
+                "C08.background_work_goes_on_after_a_recorded_failure"
             } else if m.starts_with("C08 after the fault") {
                 "C08.concurrent_acknowledged_write_lost"
             } else if m.starts_with("C07 after close and reopen") {
